@@ -577,6 +577,27 @@ func (env *Env) elabCall(x *ECall) Val {
 		return Val{T: e.bytesToString(v.T), Ty: tyString}
 	case "iface_nil":
 		return Val{T: "(mk-iface 0 0)", Ty: tyIface}
+	case "box":
+		// box(x, T): the interface value holding x with dynamic type T
+		v := arg(0)
+		var te *TypeExpr
+		if ta, ok := x.Args[1].(*ETypeArg); ok {
+			te = ta.T
+		} else if sel, ok := x.Args[1].(*ESel); ok {
+			if id, ok := sel.X.(*EIdent); ok {
+				te = &TypeExpr{Kind: "name", Pkg: id.Name, Name: sel.Name}
+			}
+		} else if id, ok := x.Args[1].(*EIdent); ok {
+			te = &TypeExpr{Kind: "name", Name: id.Name}
+		}
+		if te == nil {
+			env.fail("box: second argument must be a type")
+		}
+		gt, err := e.W.resolveGoType(te, env.Imports, env.Pkg)
+		if err != nil {
+			env.fail("%v", err)
+		}
+		return e.makeIface(v, gt)
 	case "box_string":
 		// the interface value holding a Go string
 		v := arg(0)
